@@ -128,6 +128,14 @@ impl Cli {
             Cli::Ws(c) => Box::pin(async move { c.batch_json(reqs).await }),
         }
     }
+    /// `batch_json_with_timeout`: every request of the batch with the same per-request timeout
+    pub fn batch_with_timeout(&self, tags: Vec<u64>, t: Duration) -> BoxFut<Vec<Result<Value, RepeError>>> {
+        let reqs: Vec<(String, Value)> = tags.iter().map(|t| ("/p".to_string(), body(*t, 0))).collect();
+        match self.clone() {
+            Cli::Async(c) => Box::pin(async move { c.batch_json_with_timeout(reqs, t).await }),
+            Cli::Ws(c) => Box::pin(async move { c.batch_json_with_timeout(reqs, t).await }),
+        }
+    }
     pub fn pending(&self) -> usize {
         match self {
             Cli::Async(c) => c.verif_pending_len(),
